@@ -683,3 +683,114 @@ Proof.
   - apply (transpose_is_einsum bg li ri pi A B NDl NDr NDp Hpi _ X Hv Hs). reflexivity.
 Qed.
 End T2.
+
+(* ------------------------------------------------------------------ *)
+(* (T3) one tree node: the ITdot instruction and the IEinsum instruction store
+   the same array.  "Same" = sarr_eq: equal shapes, and equal entries at every
+   position list whose length is the rank.                                   *)
+Definition sarr_eq (X Y : sarr) : Prop :=
+  fst X = fst Y /\ forall pos, length pos = length (fst X) -> snd X pos = snd Y pos.
+
+Section T3.
+Variable n : net.
+Variable sl : list slinfo.
+Variable e0 : env.
+Notation dim := (dim n).
+
+Lemma can_dot_inds isroot l r : inrange n (leaves l ++ leaves r) ->
+  can_dot n sl isroot (Node l r) = true ->
+  forall j, In j (inds n sl isroot (Node l r)) <-> In j (symdiff (inds_sub n sl l) (inds_sub n sl r)).
+Proof.
+  intros HR Hc j. unfold can_dot in Hc. pose proof (set_eqb_sound _ _ Hc j) as H.
+  pose proof (inrange_app_l n _ _ HR) as HL. pose proof (inrange_app_r n _ _ HR) as HRr.
+  destruct (inds_sub_spec n sl l HL) as [_ Hl]. destruct (inds_sub_spec n sl r HRr) as [_ Hr].
+  rewrite in_symdiff in *. rewrite Hl, Hr, <- H.
+  destruct isroot; cbn [inds node_legs]; [tauto|].
+  apply (inds_sub_spec n sl (Node l r)). exact HR.
+Qed.
+
+Theorem node_tdot_eq_einsum isroot l r (tm : temps) :
+  inrange n (leaves l ++ leaves r) ->
+  NoDup (inds n sl isroot (Node l r)) ->
+  can_dot n sl isroot (Node l r) = true ->
+  fst (tget (leaves l) tm) = map dim (inds_sub n sl l) ->
+  fst (tget (leaves r) tm) = map dim (inds_sub n sl r) ->
+  let t := Node l r in
+  let li := inds_sub n sl l in let ri := inds_sub n sl r in let pi := inds n sl isroot t in
+  let L := tget (leaves l) tm in let R := tget (leaves r) tm in
+  let rest := tdel (leaves r) (tdel (leaves l) tm) in
+  let Y := (map dim pi, einsum2 n e0 li ri pi (snd L) (snd R)) in
+  exists X,
+    fold_left (exec_instr n e0) (node_instr n sl false (isroot, t)) tm = tset (leaves t) X rest /\
+    fold_left (exec_instr n e0) (node_instr n sl true (isroot, t)) tm = tset (leaves t) Y rest /\
+    sarr_eq X Y.
+Proof.
+  intros HR NDp Hc HsL HsR t li ri pi L R rest Y.
+  pose proof (inrange_app_l n _ _ HR) as HL. pose proof (inrange_app_r n _ _ HR) as HRr.
+  destruct (inds_sub_spec n sl l HL) as [NDl _]. destruct (inds_sub_spec n sl r HRr) as [NDr _].
+  pose proof (can_dot_inds isroot l r HR Hc) as Hpi.
+  unfold t, node_instr. cbn [snd fst]. rewrite Hc. cbn [orb negb fold_left exec_instr].
+  fold L R rest li ri pi.
+  eexists. split; [reflexivity|]. split; [reflexivity|].
+  cbn [tensordot_axes]. rewrite td_perm_is_program_perm. fold li ri pi.
+  assert (EL : L = (map dim li, snd L)) by (unfold li; rewrite <- HsL; apply surjective_pairing).
+  assert (ER : R = (map dim ri, snd R)) by (unfold ri; rewrite <- HsR; apply surjective_pairing).
+  assert (Et : forall la ra, tdot L R la ra = tdot (map dim li, snd L) (map dim ri, snd R) la ra)
+    by (intros; rewrite <- EL, <- ER; reflexivity).
+  rewrite !Et. fold t pi.
+  destruct (tdot_transpose_is_einsum n e0 li ri pi (snd L) (snd R) NDl NDr NDp Hpi) as [Hs Hv].
+  cbv zeta in Hs, Hv.
+  split.
+  - cbn [fst Y]. exact Hs.
+  - intros pos Hp. rewrite Hs, map_length in Hp. cbn [snd Y]. apply Hv, Hp.
+Qed.
+
+(* the two cases of `inds`: a proper subtree needs nothing more; the root needs a
+   duplicate-free declared output *)
+Corollary node_tdot_eq_einsum_sub l r (tm : temps) :
+  inrange n (leaves l ++ leaves r) ->
+  can_dot n sl false (Node l r) = true ->
+  fst (tget (leaves l) tm) = map dim (inds_sub n sl l) ->
+  fst (tget (leaves r) tm) = map dim (inds_sub n sl r) ->
+  exists X,
+    fold_left (exec_instr n e0) (node_instr n sl false (false, Node l r)) tm
+      = tset (leaves (Node l r)) X (tdel (leaves r) (tdel (leaves l) tm)) /\
+    fold_left (exec_instr n e0) (node_instr n sl true (false, Node l r)) tm
+      = tset (leaves (Node l r))
+             (map dim (inds_sub n sl (Node l r)),
+              einsum2 n e0 (inds_sub n sl l) (inds_sub n sl r) (inds_sub n sl (Node l r))
+                      (snd (tget (leaves l) tm)) (snd (tget (leaves r) tm)))
+             (tdel (leaves r) (tdel (leaves l) tm)) /\
+    sarr_eq X (map dim (inds_sub n sl (Node l r)),
+               einsum2 n e0 (inds_sub n sl l) (inds_sub n sl r) (inds_sub n sl (Node l r))
+                       (snd (tget (leaves l) tm)) (snd (tget (leaves r) tm))).
+Proof.
+  intros HR Hc HsL HsR.
+  apply (node_tdot_eq_einsum false l r tm HR); try assumption.
+  apply (inds_sub_spec n sl (Node l r)). exact HR.
+Qed.
+
+Corollary node_tdot_eq_einsum_root l r (tm : temps) :
+  inrange n (leaves l ++ leaves r) -> NoDup (output n) ->
+  can_dot n sl true (Node l r) = true ->
+  fst (tget (leaves l) tm) = map dim (inds_sub n sl l) ->
+  fst (tget (leaves r) tm) = map dim (inds_sub n sl r) ->
+  exists X,
+    fold_left (exec_instr n e0) (node_instr n sl false (true, Node l r)) tm
+      = tset (leaves (Node l r)) X (tdel (leaves r) (tdel (leaves l) tm)) /\
+    fold_left (exec_instr n e0) (node_instr n sl true (true, Node l r)) tm
+      = tset (leaves (Node l r))
+             (map dim (out_inds n sl),
+              einsum2 n e0 (inds_sub n sl l) (inds_sub n sl r) (out_inds n sl)
+                      (snd (tget (leaves l) tm)) (snd (tget (leaves r) tm)))
+             (tdel (leaves r) (tdel (leaves l) tm)) /\
+    sarr_eq X (map dim (out_inds n sl),
+               einsum2 n e0 (inds_sub n sl l) (inds_sub n sl r) (out_inds n sl)
+                       (snd (tget (leaves l) tm)) (snd (tget (leaves r) tm))).
+Proof.
+  intros HR NDo Hc HsL HsR.
+  apply (node_tdot_eq_einsum true l r tm HR); try assumption.
+  cbn [inds]. change (lkeys (root_legs n sl)) with (out_inds n sl). rewrite out_inds_eq.
+  apply NoDup_filter, NDo.
+Qed.
+End T3.
